@@ -585,6 +585,10 @@ with PolarsImpl.impl_store.impl_manager as impl:
     def _dur_milliseconds(x):
         return x.dt.total_milliseconds()
 
+    @impl(ops.dur_microseconds)
+    def _dur_microseconds(x):
+        return x.dt.total_microseconds()
+
     @impl(ops.row_number)
     def _row_number():
         return pl.int_range(start=1, end=pl.len() + 1, dtype=pl.Int64)
